@@ -11,10 +11,18 @@ LM-free scoring) and back, copied hypothesis by hypothesis into a bag of the cal
 decoder goes on to other lines (and, for a third of the cases, has just failed on a line that is not normalised); every query
 is validated by TLC against the final beam of the model under the scale of the moment (spec/CtcBag_Trace.tla clauses L1..L5,
 harness/lmbag_common.py).
+
+Start states and kept arrays (round 9, harness/lmstart_common.py): histories of lines on one long-lived decoder + LM in which
+consecutive calls get the same state OBJECT (or a per-call temporary at the same address) with different CONTENTS, and LM
+flavours that hand out arrays they keep (row views of a table, memoised batches; also read-only).  Every line is an ordinary
+CtcDecoder_Trace trace, validated with H0 = the start history the line was given; clause LmIntact: the LM's own tables still say
+what the LM says.
 """
 from .. import ctc_common as C
 from .. import lmbag_common as B
+from .. import lmstart_common as S
 from . import c02
+from ..core import MachineryFailure
 
 LEVEL = "model_checking"
 INVS = ["LmExact", "LmExactEos", "NoOverCount"]
@@ -109,6 +117,102 @@ def run_life(ctx, cfg, mats):
     return cfg, traces, rej
 
 
+# ---- start states and kept arrays (harness/lmstart_common.py) -----------------------------------------------------------
+# one set of decoder constants (positive insertion bonus, end-of-line score, pruning beam); H0 varies per line
+START_BASE = dict(K=3, SP=1, SQ=2, Bonus=2, Eos=True)
+# (LM flavour, start-state mode, histories, blocks of NC + 1 lines per history)
+START_QUICK = [("toy", "carry", 12, 4), ("toy", "temp", 12, 4), ("wrapped", "carry", 8, 3), ("wrapped", "temp", 8, 3),
+               ("kept", "shared", 12, 4), ("frozen", "shared", 8, 4), ("kept", "temp", 8, 4), ("frozen", "carry", 8, 4)]
+
+
+START_MODES = {"carry": "one state object, contents overwritten in place before every call",
+               "temp": "a state built per call and dropped, the next one at the same address with other contents",
+               "shared": "one never-modified state object per start history, None for the default start"}
+
+
+def start_plan(ctx):
+    """[(base constants, [(flavour, mode, histories, blocks)])]"""
+    if ctx.tier == "quick":
+        return [(START_BASE, START_QUICK)]
+    every = [(f, m, 24, 6) for f in ("toy", "wrapped", "kept", "frozen") for m in S.MODES]
+    plan = [(START_BASE, every), (dict(K=2, SP=1, SQ=1, Bonus=2, Eos=False), every),
+            (dict(K=100, SP=2, SQ=1, Bonus=2, Eos=True), every), (dict(K=1, SP=1, SQ=1, Bonus=1, Eos=True), every)]
+    assert all(fits(C.base_cfg(UseLm=True, **b)) for b, _ in plan)
+    return plan
+
+
+def _slab(cfg):
+    return "%s lm=%s start=%s" % (_lab(cfg), cfg.get("lm_impl", "toy"), cfg["mode"])
+
+
+def judge_starts(ctx, base, runs, selftest=False):
+    """runs = [(cfg, histories, [(history number, line number, trace)])]; the lines are validated per start history (constant H0).
+    selftest: a corrupted copy of one kept-array line rides along (binding of clause LmIntact: it must be rejected)"""
+    import copy
+    for h0 in range(base["NC"] + 1):
+        pool = [(r, n, j, tr) for r, (cfg, hists, lines) in enumerate(runs) for n, j, tr in lines if tr["h0"] == h0]
+        traces = [x[3] for x in pool]
+        probe = None
+        if selftest and "start_selftest" not in ctx.notes:
+            probe = next((i for i, tr in enumerate(traces) if tr.get("lmown") and tr["outcome"] == "ok"), None)
+            if probe is not None:
+                bad = copy.deepcopy(traces[probe])          # the LM's table row of the start state with the insertion bonus folded in
+                bad["lmown"][0]["w"] = [2 * x for x in bad["lmown"][0]["w"]]
+                traces = traces + [bad]
+        consts = C.tla_constants(dict(base, H0=h0))
+        acc, rej = ctx.validate("CtcDecoder_Trace", traces, constants=consts, shards=max(1, min(3, len(pool) // 200)),
+                                label="CtcDecoder_Trace start states " + _lab(dict(base, H0=h0)))
+        if probe is not None:
+            caught = any(idx == len(pool) for idx, _ in rej)
+            rej = [(idx, prog) for idx, prog in rej if idx != len(pool)]
+            ctx.traces_validated -= 0 if caught else 1
+            if all(idx != probe for idx, _ in rej):         # the pristine line was accepted: its corrupted copy must not be
+                if not caught:
+                    raise MachineryFailure("binding self-test failed for CtcDecoder_Trace / LmIntact: a line whose recorded own LM "
+                                           "table row was doubled is accepted")
+                ctx.notes.setdefault("selftest_corrupted_trace_rejected", []).append(True)
+                ctx.notes["start_selftest"] = "kept-array line whose recorded own table row is doubled: rejected (LmIntact)"
+        for r, n, j, tr in pool:
+            nt = tr["outcome"] == "ok" and len(tr["frames"]) and len(tr["frames"][-1]) > 1
+            ctx.count(1, ("start", _slab(runs[r][0]), n, j) if nt else None)
+        if pool:
+            ctx.sample({"config": _slab(runs[pool[len(pool) // 2][0]][0]), "trace": pool[len(pool) // 2][3]}, limit=6)
+        for idx, prog in rej:
+            r, n, j, tr = pool[idx]
+            cfg, hists, _ = runs[r]
+            if tr["outcome"] != "ok":
+                sig, what = "start/outcome", "outcome=%s not allowed by the specification" % tr["outcome"]
+            elif prog < cfg["T"]:
+                sig, what = "start/frame", C.first_bad_clause(tr, prog, cfg)
+            else:
+                sig, what = "start/final-bag", C.first_bad_clause(tr, prog, cfg) + " / the LM's own tables changed"
+            ctx.violation({"kind": "start", "cfg": cfg, "history": hists[n], "line": j, "trace": tr, "progress": prog}, sig,
+                          "%s; line %d (start history %s) of a history on one long-lived decoder and LM, LM flavour '%s', start-state "
+                          "mode '%s' (%s); config %s, matrix %s" % (
+                              what, j + 1, "<<%d>>" % tr["h0"] if tr["h0"] else "<<>>", cfg.get("lm_impl", "toy"), cfg["mode"],
+                              START_MODES[cfg["mode"]], _lab(dict(cfg, H0=tr["h0"])), tr["mat"]))
+
+
+def run_starts(ctx, done_designs):
+    for base_kw, plan in start_plan(ctx):
+        base = C.base_cfg(UseLm=True, **base_kw)
+        # the design for every start history of these constants (those not model-checked above)
+        for h0 in range(base["NC"] + 1):
+            consts = C.tla_constants(dict(base, H0=h0))
+            key = repr(sorted((k, repr(v)) for k, v in consts.items()))
+            if key not in done_designs:
+                done_designs.add(key)
+                ctx.tlc("CtcDecoder", constants=consts, invariants=INVS, workers=8, timeout=3000,
+                        label="CtcDecoder " + _lab(dict(base, H0=h0)))
+        mats = list(C.all_matrices(base["T"], base["NC"], base["D"]))
+        runs = []
+        for k, (flavour, mode, n_hist, blocks) in enumerate(plan):
+            cfg = dict(base, lm_impl=flavour, mode=mode)
+            hists = S.make_histories(cfg, mats, n_hist, blocks, ctx.seed * 1000 + k)
+            runs.append((cfg, hists, S.run_histories(cfg, hists)))
+        judge_starts(ctx, base, runs, selftest=True)
+
+
 def judge(ctx, cfg, traces):
     consts = C.tla_constants(cfg)
     acc, rej = ctx.validate("CtcDecoder_Trace", traces, constants=consts, label="CtcDecoder_Trace " + _lab(cfg))
@@ -128,16 +232,21 @@ def run(ctx):
     ctx.rule = ("every row-normalised matrix of the bounded shape decoded by the real decoder with a toy history-dependent LM "
                 "for each (beam width, LM scale, insertion bonus, EOS, initial state) config; beams with LM scores after every "
                 "frame, best_hyp(), confidence() and the returned state validated by TLC; non-trivial = more than one final hypothesis; "
-                "for a seeded sample of the matrices the returned bag is re-weighted / re-filled / sorted and queried again (bag life)")
+                "for a seeded sample of the matrices the returned bag is re-weighted / re-filled / sorted and queried again (bag life); "
+                "seeded histories of lines on one long-lived decoder + LM: the same start-state object (or address) with other contents "
+                "from call to call, LMs handing out arrays they keep (also read-only)")
     ctx.exhaustive = True
     ctx.assume("toy LM with state = whole prefix (the LMWrapper interface is respected; real LSTM LMs are not exercised)",
                "LM scales are the rationals 0, 1/2, 1, 3/2, 2, 3; insertion bonus log 1 or log 2",
                "exact ties between hypotheses admit any maximiser")
+    ctx.assume("start-state histories: start histories none / <<c>> (one character); at most 18 lines per history on one decoder")
     cfgs = configs(ctx)
     life = life_configs(ctx, cfgs)
     life_good = None
+    done_designs = set()
     for cfg in cfgs:
         consts = C.tla_constants(cfg)
+        done_designs.add(repr(sorted((k, repr(v)) for k, v in consts.items())))
         ctx.tlc("CtcDecoder", constants=consts, invariants=INVS, workers=8, timeout=3000, label="CtcDecoder " + _lab(cfg))
         mats = list(C.all_matrices(cfg["T"], cfg["NC"], cfg["D"]))
         if cfg["T"] >= 4:
@@ -154,6 +263,7 @@ def run(ctx):
             lcfg, ltraces, lrej = run_life(ctx, cfg0, lmats)
             if life_good is None and not lrej:
                 life_good = (lcfg, max(ltraces, key=lambda tr: len(tr["life"]) * 100 + len(tr["frames"][0])))
+    run_starts(ctx, done_designs)
     if life_good is not None:
         def corrupt(tr):      # the bag answers the last query of its life with the confidence of another moment
             tr["life"][-1]["confset"] = [[9]]
@@ -163,7 +273,9 @@ def run(ctx):
                                 "decoder + BagOfHypotheses and validated by CtcDecoder_Trace (clauses: LM score per entry and frame, "
                                 "best_hyp in arg-max of vis^q*lm^p, best_hyp carries the reported confidence, returned state belongs to a maximiser); "
                                 "bag life (CtcBag_Trace): after every re-weighting / add / sort of a long-lived bag best_hyp maximises under the scale "
-                                "of the moment, carries the reported confidence, and for scale 0 / 1 the confidence equals the exact posterior" % INVS)
+                                "of the moment, carries the reported confidence, and for scale 0 / 1 the confidence equals the exact posterior; "
+                                "start-state histories (CtcDecoder_Trace with H0 = the start history of the line; LmIntact: the arrays an LM keeps "
+                                "still hold the LM's own distribution after the line)" % INVS)
 
 
 def replay(ctx, case):
@@ -171,6 +283,11 @@ def replay(ctx, case):
     if case.get("kind") == "life":
         mat = tuple(tuple(r) for r in case["trace"]["mat"])
         judge_life(ctx, cfg, B.run_life(cfg, [mat], life_scales(cfg), procs=1))
+        return
+    if case.get("kind") == "start":
+        # the whole history again on a new long-lived decoder + LM; every line of it is judged again
+        hists = [case["history"]]
+        judge_starts(ctx, C.base_cfg(**{k: cfg[k] for k in C.base_cfg() if k in cfg}), [(cfg, hists, S.run_histories(cfg, hists, procs=1))])
         return
     traces = C.run_config(cfg, [tuple(tuple(r) for r in case["trace"]["mat"])])
     judge(ctx, cfg, traces)
